@@ -74,6 +74,7 @@ __CPROVER_requires (V_W_OK (rp, n) && V_R_OK (up, n) && V_SAME_OR_INCR (rp, up, 
 __CPROVER_assigns (__CPROVER_object_upto (rp, n * 8))
 __CPROVER_ensures (rp[gk] == ((__CPROVER_old (up[gk]) >> cnt) | (gk < n - 1 ? __CPROVER_old (up[gk + (gk < n - 1)]) << (64 - cnt) : 0)))
 __CPROVER_ensures (__CPROVER_return_value == __CPROVER_old (up[0]) << (64 - cnt))
+__CPROVER_ensures (rp[n - 1] == __CPROVER_old (up[n - 1]) >> cnt)            /* fixed second position: the top limb */
 ;
 
 /* ---- comparison.  Ghost output g_hd: highest index where the operands differ (-1: none).
